@@ -156,6 +156,21 @@ NEEDS = {
  "C17j": "HELD-OUT 5: a single-output circuit with unloaded logic that reads a net inside the output cone",
  "C18j": "HELD-OUT 5: two or more feedback edges chosen from the same source node (overlapping loops): the second edge is cut but never re-driven",
  "C19j": "HELD-OUT 5: utils.lint(c, unloaded=True) on a circuit with a dead non-output gate (the checker calls the mutating remove_unloaded on its argument, then raises)",
+ "C01k": "HELD-OUT 6: a parity gate in which one source net occurs twice once driven inverters are read through: xor(a, not(a), b), xnor(not(a), not(a)', b)",
+ "C03k": "HELD-OUT 6: an escaped identifier containing ',', ';', '(' or ')' (legal up to the blank): the reader's lexer cuts the name at the punctuation",
+ "C04k": "HELD-OUT 6: two xor/xnor gates over the same operand pair in the compared circuits (ne = a^b next to eq = ~(a^b), a half adder next to a wide parity over a superset): cnf's memo of encoded pairs leaves the second gate without clauses; partly PYTHONHASHSEED dependent",
+ "C05k": "HELD-OUT 6: acyclic_unroll of a circuit with a primary input that reaches no output (spare pin, input feeding only dead logic): the clean-up sweep deletes it",
+ "C06k": "HELD-OUT 6: add_subcircuit (strip_io) with instance name <inst> into a parent that already has a primary input / output named <inst>_<something> (u_en next to instance u): that net is retyped / loses its output mark",
+ "C07k": "HELD-OUT 6: a rejected connect / add whose driver list has a legal driver before the offending blackbox pin, onto a multi-input gate: the edges of the earlier drivers stay",
+ "C08k": "HELD-OUT 6: a circuit with a one-input xnor gate (an inverter; also what the bench reader makes of XNOR(a, b, b)) and a query that is not symmetric in its polarity: cnf encodes it as a buffer",
+ "C09k": "HELD-OUT 6: tx.unroll with a pair k: v where k is a primary input that is also an output and v is marked output too, n >= 2: the pair is 'oriented' the wrong way",
+ "C10k": "HELD-OUT 6: ternary(c); c.set_type(g, other) in place; ternary(c) again: a per-object memo fingerprinted by nodes and edges only returns the stale encoding",
+ "C11k": "HELD-OUT 6: influence / avg_sensitivity (exact) of a node whose cone contains another node marked as output: the cone is cut out once and all its outputs are sensitized",
+ "C15k": "HELD-OUT 6: circuit_to_bench of a circuit with a one-input xnor gate (an inverter in this library): written as BUF",
+ "C16k": "HELD-OUT 6: remove_unloaded through a recursive helper: a dead chain deeper than the recursion limit stops half-way (the check caught it earlier: the helper also visits a shared driver twice -> KeyError)",
+ "C17k": "HELD-OUT 6: supergates(construct_supercircuit=True) of a single-output circuit with a primary input outside the output's cone: the super-circuit loses that input",
+ "C18k": "HELD-OUT 6: acyclic_unroll bypasses every non-output buf: an xor/xnor reading a net and a buffer of the same net loses an operand",
+ "C19k": "HELD-OUT 6: tx.acyclic_unroll on a circuit it rejects (a loop plus a self-feeding gate): the feedback edges are removed from the argument's own graph and only restored on success",
  "C18d": "(helper: Circuit.disconnect testing `u in us` with a single name, i.e. a substring test) a cut feedback node whose name contains the name of another driver of one of its loads (n12 / n1)",
  "C19c": "influence/avg_sensitivity with supergates=True and a peer failure in the middle (solver raises, pysat unimportable, approxmc missing or exit 1)",
  "C19": "tx.subcircuit asked for ALL nodes of a blackbox-free circuit (directly or through sensitization_transform / influence with an endpoint whose cone is the whole circuit), then any edit or the internal set_output",
@@ -198,7 +213,9 @@ def main():
         if not os.path.isfile(os.path.join(d, "patch.diff")) or (only and sid not in only):
             continue
         prop = sid[:3]
-        if sid.endswith("j"):
+        if sid.endswith("k"):
+            src2 = " (round 11, sixth held-out measurement, after audit round 2)"
+        elif sid.endswith("j"):
             src2 = " (round 10, fifth held-out measurement, after the history / representation seams and the audit-driven workload extensions)"
         elif sid.endswith("i"):
             src2 = " (round 9, fourth held-out measurement; agents were also asked for side observations on the original code)"
